@@ -84,6 +84,21 @@ func ruleView1(c *Ctx) {
 					order = append(order, k)
 				}
 				name := "Header"
+				if fa.Field == h {
+					// fields appended to the view's own header keep the position of every existing column
+					hf := h
+					own := func(v ssa.Value) bool {
+						u, ok := v.(*ssa.UnOp)
+						if !ok || u.Op != token.MUL {
+							return false
+						}
+						ofa, ok := u.X.(*ssa.FieldAddr)
+						return ok && ofa.Field == hf && viewObjKey(ofa.X) == k
+					}
+					if extendsOwn(s.Val, own) {
+						continue
+					}
+				}
 				if fa.Field == r {
 					name = "RecordSet"
 					// rows added to / cut from the view's own record set keep the layout the header describes
@@ -294,4 +309,52 @@ func viewLeafGetter(call ssa.CallInstruction) bool {
 		}
 	}
 	return !(fields["Header"] && fields["RecordSet"]) && len(fields) <= 1
+}
+
+// extendsOwn: v is append(<own>, …), or the result of a helper that is given <own> and returns append(<that
+// parameter>, …) on every path
+func extendsOwn(v ssa.Value, own func(ssa.Value) bool) bool {
+	appendOf := func(v ssa.Value, base func(ssa.Value) bool) bool {
+		ok := false
+		for _, o := range core.Origins(v, false) {
+			call, isCall := o.(*ssa.Call)
+			if !isCall {
+				return false
+			}
+			b, isB := call.Call.Value.(*ssa.Builtin)
+			if !isB || b.Name() != "append" || !base(call.Call.Args[0]) {
+				return false
+			}
+			ok = true
+		}
+		return ok
+	}
+	if appendOf(v, own) {
+		return true
+	}
+	call, idx, ok := core.ExtractOf(v)
+	if !ok {
+		return false
+	}
+	g := call.Common().StaticCallee()
+	if g == nil || g.Blocks == nil {
+		return false
+	}
+	for i, a := range call.Common().Args {
+		if !own(a) || i >= len(g.Params) {
+			continue
+		}
+		param := g.Params[i]
+		rets := core.Returns(g)
+		all := len(rets) > 0
+		for _, r := range rets {
+			if idx >= len(r.Results) || !appendOf(r.Results[idx], func(x ssa.Value) bool { return x == ssa.Value(param) }) {
+				all = false
+			}
+		}
+		if all {
+			return true
+		}
+	}
+	return false
 }
